@@ -124,7 +124,10 @@ def check(case, ctx):
     how = case.get("s_as", "float")
     if how == "grid":
         # the caller evaluates one (read-only) grid of s values for several elements
-        grid = O.ro(np.linspace(0.0, 2.0, 41))
+        base = np.linspace(0.0, 2.0, 41)
+        k_ = int(case["ds"] * 1e6) % 41
+        order = [(7 * i + k_) % 41 for i in range(41)]          # the caller's own order of s values (not sorted)
+        grid = O.ro(base[order] if case["el"] % 3 else base)
         try:
             vals = np.asarray(structure.FormFactor(el, grid), float)
         except TypeError:
